@@ -26,7 +26,7 @@ LEVEL = "exploration"
 RUNS = {"quick": 40000, "thorough": 1000000}
 WALL = {"quick": 240, "thorough": 1500}
 PARTITIONS = [{"name": "default", "env": {}}]
-FAULT_KINDS = ["grow_left", "grow_right", "far_value", "edge_multiple", "ulp_neighbour", "decimal_literal",
+FAULT_KINDS = build.LAYOUT_FAULTS + ["grow_left", "grow_right", "far_value", "edge_multiple", "ulp_neighbour", "decimal_literal",
                "empty_batch", "nan_entry", "batch_split", "first_value_creates_bins", "derived_object_filled"]
 RULE = ("one run = one adaptive fixed-width accumulator (1-3 D; width from {1,2,0.5,0.25,0.1,0.3,2.5,7,1e-3}; "
         "empty or pre-filled; facade or class constructor; align/shift) fed a seeded stream (<= 40 entries: grid "
@@ -150,7 +150,7 @@ def generate(rng, seed, part):
                 k = min(n - i, rng.choice([5, 100, 2048, 2500, 4096, n]))
             idx = list(range(i, i + k))
             rng.shuffle(idx)
-            op = {"op": "fill_n", "idx": idx, "cont": rng.choice(conts), "vt": vt}
+            op = {"op": "fill_n", "idx": idx, "cont": rng.choice(conts), "vt": vt, "mem": rng.choice(build.MEM_MODES)}
             if rng.random() < 0.15:
                 op["nan_at"] = rng.randrange(k)
             ops.append(op)
@@ -518,7 +518,15 @@ def execute(plan, ctx):
                 ctx.fault("empty_batch")
             elif len(idxs) < len(entries):
                 ctx.fault("batch_split")
+            held = []
+            if len(rows) and op.get("vt") != "f32":
+                (data, w_), held = build.hand_over(ctx, op.get("mem"), data, kw.get("weights"))
+                if "weights" in kw:
+                    kw["weights"] = w_
             ok, ret = attempt(h.fill_n, data, **kw)
+            if ok:
+                from sim.oracle import snap as _snap, snap_diff as _snap_diff
+                build.scribble_check(ctx, h, held, op.get("mem"), _snap, _snap_diff, "C04", f"fill_n/{kind}")
             ctx.ev("src", f"fill_n:{cont}", len(idxs), "ok" if ok else exc_tag(ret))
             if not ok:
                 ctx.violation("C04/valid-entry-accepted",
